@@ -658,9 +658,30 @@ def rule_classify(ctx):
         ls = c.enclosing(r, types=(ast.For,), role="body")
         ctx.ob(R, fi, r, bool(ls) and unparse(ls[0][0].iter) == "self._to_reenqueue" and unparse(arg_of(r.ast, 0)) == unparse(ls[0][0].target),
                "reenqueue is not applied to every batch of _to_reenqueue", text="reenqueue-loop")
-        tests = [t for t in c.nodes if t.kind == "test" and unparse(t.ast) == "self._to_reenqueue"]
-        ctx.ob(R, fi, r, any(c.dominated_by_branch(t, "T", r) for t in tests) and
-               all(_falls_to_exit_only(c, t) for t in tests), "re-enqueue not governed by `if self._to_reenqueue`", text="reenqueue-guard")
+    # every batch put on _to_reenqueue is handed back: no normal path of do() that appended to the list (itself or through
+    # handle_response) ends without passing the re-enqueue loop.  Decided by exploring the CFG with the abstract state
+    # (appended?, loop passed?, None-ness of locals): a guard on the list itself is exact, a guard on a local (`backoff is not None`) is
+    # followed through the helper's returns; an expression other than None / a local / a summarised call is taken to be non-None.
+    summ = {}
+    for hn in ("handle_response", "handle_error"):
+        try:
+            hf = ctx.fn(f"{HANDLER}.{hn}")
+        except AnalysisError:
+            continue
+        summ[hn] = {(a, v) for a, _r, v in _explore_requeue(ctx.cfg(hf), {}, as_summary=True)}
+    outs = _explore_requeue(c, summ)
+    bad = sorted({ln for a, r_, ln in outs if a and not r_})
+    ctx.ob(R, fi, fi.node, not bad, f"do() can end (exit reached from line(s) {bad[:3]}) with batches on _to_reenqueue that were never re-enqueued: they are "
+                                    "neither resolved nor retried", text="reenqueue-guard")
+    # the per-partition / per-batch loops are not left early: every entry of the response (every batch of the request) is classified
+    for hf in (fi, ctx.fn(f"{HANDLER}.handle_response")):
+        hc = ctx.cfg(hf)
+        loops = {id(a): a for e in _resolution_events(hc) for a, _r in hc.enclosing(e, types=(ast.For,), role="body")}
+        outer = [l for l in loops.values() if not any(l is not o and any(x is l for x in ast.walk(o)) for o in loops.values())]
+        for la in outer:
+            early = [x for x in ast.walk(la) if isinstance(x, (ast.Return, ast.Break))]
+            ctx.ob(R, hf, la, not early, f"the loop over {unparse(la.iter)} is left early at line {early[0].lineno if early else 0}: the remaining "
+                                         "partitions' batches are neither acknowledged, failed nor re-enqueued", text="no-early-exit:" + unparse(la.iter))
     for cf, cn in ctx.callers("reenqueue"):
         ctx.ob(R, cf, cn, cf.qualname == f"{HANDLER}.do", f"reenqueue called from {cf.qualname}", text="reenqueue-caller")
     # exception arm catches every KafkaError of the send
@@ -676,6 +697,84 @@ def _none_guarded(c, cont):
         if t.kind == "test" and is_none_test(t.ast) is not None and c.dominated_by_branch(t, "T", cont):
             return True
     return False
+
+
+def _explore_requeue(c, summ, as_summary=False):
+    """Outcomes (appended, passed_requeue_loop, x) of the normal paths of a handler method; x is the return value's None-ness
+    ('N', 'V', 'U') -- for a summary -- paired with the line the exit was reached from."""
+    outs = set()
+    seen = set()
+    todo = [(c.entry, False, False, frozenset())]
+
+    def val(e, env):
+        if e is None or (isinstance(e, ast.Constant) and e.value is None):
+            return "N"
+        if isinstance(e, ast.Name):
+            return dict(env).get(e.id, "U")
+        if isinstance(e, (ast.BoolOp, ast.IfExp)):
+            return "U"
+        return "V"
+
+    def summarised(e):
+        if isinstance(e, ast.Await):
+            e = e.value
+        if isinstance(e, ast.Call) and isinstance(e.func, ast.Attribute) and unparse(e.func.value) == "self" and e.func.attr in summ:
+            return summ[e.func.attr]
+        return None
+
+    while todo:
+        st = todo.pop()
+        if st in seen:
+            continue
+        seen.add(st)
+        n, a, r, env = st
+        nexts = [(m, l) for m, l in n.succ if not (l == "exc" and m.kind != "handler")]
+        forks = [(a, r, env)]
+        if n.kind == "call" and call_attr(n.ast) == "append" and unparse(n.ast.func.value) == "self._to_reenqueue":
+            forks = [(True, r, env)]
+        elif n.kind == "call" and summarised(n.ast) is not None and not (isinstance(n.stmt, (ast.Assign, ast.Return)) and n.stmt.value in (n.ast,)):
+            forks = [(a or a2, r, env) for a2, _v in summarised(n.ast)]
+        elif n.kind == "foriter" and unparse(n.ast.iter) == "self._to_reenqueue" and any(isinstance(x, ast.Call) and call_attr(x) == "reenqueue" for x in ast.walk(n.ast)):
+            forks = [(a, True, env)]
+        elif n.kind == "store" and isinstance(n.ast, ast.Name) and isinstance(n.stmt, ast.Assign) and len(n.stmt.targets) == 1 and n.stmt.targets[0] is n.ast:
+            sm = summarised(n.stmt.value)
+            if sm is not None:
+                forks = [(a or a2, r, frozenset({**dict(env), n.ast.id: v}.items())) for a2, v in sm]
+            else:
+                forks = [(a, r, frozenset({**dict(env), n.ast.id: val(n.stmt.value, env)}.items()))]
+        elif n.kind == "store" and isinstance(n.ast, ast.Name):
+            forks = [(a, r, frozenset({**dict(env), n.ast.id: "U"}.items()))]
+        elif n.kind == "return":
+            sm = summarised(n.ast.value) if n.ast.value is not None else None
+            for a2, v in (sm if sm is not None else [(False, val(n.ast.value, env))]):
+                outs.add((a or a2, r, v if as_summary else n.lineno))
+            continue
+        if n.kind == "test":
+            t = n.ast
+            neg = False
+            while isinstance(t, ast.UnaryOp) and isinstance(t.op, ast.Not):
+                t, neg = t.operand, not neg
+            feas = {"T", "F"}
+            if unparse(t) == "self._to_reenqueue":
+                feas = {"T"} if a else {"F"}
+            elif isinstance(t, ast.Name) and dict(env).get(t.id) == "N":
+                feas = {"F"}
+            elif is_none_test(t) is not None and isinstance(is_none_test(t), ast.Name):
+                v = dict(env).get(is_none_test(t).id, "U")
+                feas = {"T"} if v == "N" else {"F"} if v == "V" else {"T", "F"}
+            elif is_none_test(t, negate=True) is not None and isinstance(is_none_test(t, negate=True), ast.Name):
+                v = dict(env).get(is_none_test(t, negate=True).id, "U")
+                feas = {"F"} if v == "N" else {"T"} if v == "V" else {"T", "F"}
+            if neg:
+                feas = {{"T": "F", "F": "T"}[x] for x in feas}
+            nexts = [(m, l) for m, l in nexts if l not in ("T", "F") or l in feas]
+        for a2, r2, env2 in forks:
+            for m, _l in nexts:
+                if m.kind == "exit":
+                    outs.add((a2, r2, "N" if as_summary else n.lineno))
+                elif m.kind != "raise_exit":
+                    todo.append((m, a2, r2, env2))
+    return outs
 
 
 def _falls_to_exit_only(c, t):
@@ -697,8 +796,9 @@ def rule_no_expire(ctx):
         c = ctx.cfg(cf)
         node = [n for n in c.nodes if n.kind == "call" and n.ast is cn.ast]
         node = ctx.one(node, "expired() node")
-        tests = [t for t in c.nodes if t.kind == "test" and is_none_test(t.ast) is not None and unparse(is_none_test(t.ast)).endswith("_txn_manager")]
-        ok = any(c.dominated_by_branch(t, "T", node) for t in tests)
+        # a guard fact, however the test is spelled (`x is None and expired()`, or an early return on `x is not None` before it)
+        from ..rulekit import must_facts
+        ok = any(a[0].endswith("_txn_manager") and a[1] == "is" and a[2] == "None" for a in must_facts(c)[node])
         ctx.ob(R, cf, node, ok, f"{cf.name}: batch expiry applies to idempotent/transactional producers too", text="expiry-guard")
 
 
